@@ -5,10 +5,10 @@ CONSTANTS
   MaxKern = 2
   Vals = {0, 1, 2, 3}
   NBlind = 3
-  RPatterns <- Pat9
+  RPatterns <- Pat3
   Fees = {1, 2}
   Offsets <- OffsetsC
-  Splits <- SplitsC
-  PrevOffsets = {0, 1, 2}
-  MaxCorrupt = 2
-INVARIANTS Emit
+  Splits <- SplitsSmall
+  PrevOffsets = {0, 1}
+  MaxCorrupt = 1
+INVARIANTS AllChecks
